@@ -50,6 +50,7 @@ def write_roms(
     packed=None,  # dict name -> scale_factor (stored as i2)
     time_units: str = "seconds since 2000-01-01 00:00:00",
     time_ref_shift: int = 0,  # the file's own time reference is EPOCH + this many seconds (values shift the other way)
+    time_unit: str = "s",  # unit of the file's ocean_time: "s" seconds, "h" hours, "d" days (float values)
     grid_only: bool = False,
 ) -> Path:
     path = Path(path)
@@ -93,10 +94,11 @@ def write_roms(
             return path
 
         x = nc.createVariable("ocean_time", "f8", ("ocean_time",))
-        if time_ref_shift:
+        if time_ref_shift or time_unit != "s":
             ref = str(EPOCH + np.timedelta64(int(time_ref_shift), "s")).replace("T", " ")
-            x.units = f"seconds since {ref}"
-            x[:] = np.asarray(times, dtype=float) - float(time_ref_shift)
+            word, secs = {"s": ("seconds", 1.0), "h": ("hours", 3600.0), "d": ("days", 86400.0)}[time_unit]
+            x.units = f"{word} since {ref}"
+            x[:] = (np.asarray(times, dtype=float) - float(time_ref_shift)) / secs
         else:
             x.units = time_units
             x[:] = np.asarray(times, dtype=float)
